@@ -63,3 +63,28 @@ def _uphill_energy(pot, separation, direction, x):
 
 
 NATIVE.update({"uphill_energy": _uphill_energy, "pot_energy": lambda pot, s: float(pot._potential([float(c) for c in s])), "close": lambda a, b: abs(float(a) - float(b)) <= 1e-6 * max(1.0, abs(float(a)), abs(float(b)))})
+
+
+def _walker_table_exact(walker, rates):
+    """The alias table is exact: n rows, each row's shares sum to the mean, each item's shares sum to its original rate."""
+    n = len(rates)
+    total = sum(rates)
+    mean = total / n
+    tol = 1e-9 * max(1.0, total)
+    if abs(walker._total_rate - total) > tol or abs(walker._mean_rate - mean) > tol or len(walker._table) != n:
+        return False
+    got = {}
+    for row in walker._table:
+        if len(row) not in (1, 2):
+            return False
+        if any(s.rate < -tol for s in row) or abs(sum(s.rate for s in row) - mean) > 1e-6 * max(1.0, mean):
+            return False
+        for s in row:
+            got[s.item] = got.get(s.item, 0.0) + s.rate
+    for i, r in enumerate(rates):
+        if abs(got.get(("cell", i), 0.0) - r) > 1e-6 * max(1.0, total):
+            return False
+    return True
+
+
+NATIVE.update({"walker_table_exact": _walker_table_exact})
